@@ -59,4 +59,8 @@ structure Sim (cfg : Cfg) (W : World) (st : St) (s : SSt) : Prop where
   val : ∀ o b, b ∈ W.levels.flatten →
     dget st.store (o, cfg.key b.iface b.pname) = s.val o b.iface b.pname
 
+/-- The specification state after history `h`, the history being annotated with what the code produced. -/
+def specRun (cfg : Cfg) (W : World) (h : List Op) : SSt :=
+  PropsSpec.run (sdeclOf W) (annotate cfg W St.init h)
+
 end Txdbus.Obj.Props
